@@ -115,6 +115,11 @@ impl TimeStrategy {
             return false;
         }
 
+        #[cfg(jgilchrist_tcheran_verif)]
+        if !matches!(self.time_control, TimeControl::Infinite) && verif_hooks::expired() {
+            return false;
+        }
+
         match self.time_control {
             TimeControl::Clocks(_) => self.elapsed() < self.soft_stop,
             TimeControl::ExactTime(time) => self.elapsed() < time,
@@ -132,6 +137,11 @@ impl TimeStrategy {
         }
 
         self.next_check_at = nodes_visited + params::CHECK_TERMINATION_NODE_FREQUENCY;
+
+        #[cfg(jgilchrist_tcheran_verif)]
+        if !matches!(self.time_control, TimeControl::Infinite) && verif_hooks::expired() {
+            return true;
+        }
 
         match self.time_control {
             TimeControl::Clocks(_) => self.elapsed() > self.hard_stop,
@@ -166,12 +176,14 @@ pub mod verif_hooks {
     thread_local! {
         static POLLS: Cell<u64> = const { Cell::new(0) };
         static STOP_AT: Cell<u64> = const { Cell::new(0) };
+        static EXPIRE_AT: Cell<u64> = const { Cell::new(0) };
         static STOPPED_AT: std::cell::RefCell<Option<String>> = const { std::cell::RefCell::new(None) };
     }
 
     /// Reset the poll counter; `stop_at` = 0 never stops, k > 0 stops from the k-th poll on.
     pub fn arm(stop_at: u64) {
         POLLS.with(|p| p.set(0));
+        EXPIRE_AT.with(|s| s.set(0));
         STOP_AT.with(|s| s.set(stop_at));
         STOPPED_AT.with(|s| *s.borrow_mut() = None);
     }
@@ -193,6 +205,18 @@ pub mod verif_hooks {
 
     pub fn polls() -> u64 {
         POLLS.with(Cell::get)
+    }
+
+    /// Like `arm`, but instead of the stop flag it is the time limit that reads as expired, from the
+    /// k-th poll on, at the places where the clock is compared with the limit.
+    pub fn arm_expiry(expire_at: u64) {
+        arm(0);
+        EXPIRE_AT.with(|s| s.set(expire_at));
+    }
+
+    pub(super) fn expired() -> bool {
+        let k = EXPIRE_AT.with(Cell::get);
+        k != 0 && POLLS.with(Cell::get) >= k
     }
 
     pub(super) fn poll() -> bool {
